@@ -188,17 +188,24 @@ def _wr(ftype: str) -> str:
     return 'std::string("s") + std::to_string(vf_w__)'
 
 
-def compile_and_run(prog_dir: str, info: Dict, source: str, name: str = 'driver') -> Tuple[int, str]:
+def compile_and_run(prog_dir: str, info: Dict, source: str, name: str = 'driver', asan: bool = False) -> Tuple[int, str]:
     src = os.path.join(prog_dir, f'{name}.cc')
     exe = os.path.join(prog_dir, name)
     with open(src, 'w', encoding='utf-8') as fh:
         fh.write(source)
     cmd = ['g++', '-std=c++17', '-O0', '-w', '-I', MOCK_INC, '-I', prog_dir, src, '-o', exe, '-pthread']
+    env = dict(os.environ)
+    if asan:
+        cmd[3:3] = ['-g', '-fsanitize=address', '-fno-omit-frame-pointer']
+        env['ASAN_OPTIONS'] = 'detect_stack_use_after_return=1:halt_on_error=1'
     proc = subprocess.run(cmd, capture_output=True, text=True, timeout=600, check=False)
     if proc.returncode != 0:
         return 2, 'COMPILE-ERROR ' + proc.stderr[:1500]
-    run = subprocess.run([exe], capture_output=True, text=True, timeout=60, check=False)
-    return run.returncode, run.stdout
+    run = subprocess.run([exe], capture_output=True, text=True, timeout=120, check=False, env=env)
+    out = run.stdout
+    if asan and 'AddressSanitizer' in run.stderr:
+        out += '\nASAN-REPORT ' + run.stderr[:600].replace('\n', ' | ')
+    return run.returncode, out
 
 
 def parse_trace(text: str) -> List[Dict]:
